@@ -287,6 +287,34 @@ def cross_matrix(ctx, o_x, first_only=False):
             except Exception as e:  # noqa: BLE001
                 obs = errname(e) + ": " + str(e)[:80]
             chk(cname + ":every-passlib-ident", obs == (True, True, False, True), inp, obs, (True, True, False, True))
+    # ---- text passwords (as given, in any Unicode spelling: neither library may rewrite the text before encoding it) and passwords at the
+    #      digests' block boundaries: both libraries render the same string and each verifies the other's
+    texts = ["password", "p\u00e4ss", "cafe\u0301", "A\u030angstr\u00f6m \u212b", "\u1100\u1161\u11a8", "\u2126hm", "\ufb01n", "\U0001f600", "x" * 63, "x" * 64, "x" * 65, "y" * 127, "y" * 128, "y" * 129,
+             "\u00e9" * 32, "\u00e9" * 64]
+    for name, mk, cl, rs, mksalt in pairs:
+        r = rs[0]
+        lp = mk(r)
+        for text in texts:
+            if name.startswith("bcrypt") and len(text.encode()) > 72:
+                continue
+            salt = mksalt()
+            inp = {"op": "text-secret", "format": name, "secret": text, "rounds": r, "salt": (salt.hex() if isinstance(salt, bytes) else salt)}
+            try:
+                if name.startswith("bcrypt"):
+                    hs = lp.hash(text, salt=bcrypt_pkg.gensalt(rounds=r))
+                    ph = cl.using(rounds=r).hash(text)
+                    same = True
+                else:
+                    hs = lp.hash(text, salt=salt)
+                    ph = cl.using(rounds=r, salt=salt).hash(text)
+                    same = hs == ph
+                raw = text.encode("utf-8")
+                obs = (same, cl.verify(text, hs), cl.verify(raw, hs), lp.verify(ph, text), lp.verify(ph, raw), lp.verify(hs, raw), lp.verify(hs, text + "x"))
+            except Exception as e:  # noqa: BLE001
+                obs = errname(e) + ": " + str(e)[:100]
+            chk(name + ":text-secret", obs == (True, True, True, True, True, True, False), inp, obs, "same string; each verifies the other's, text and UTF-8 bytes alike")
+        if fails and first_only:
+            return fails
     for name, mk, cl, rs, mksalt in pairs:
         for _ in range(4 if not ctx.thorough else 40):
             r = rng.choice(rs)
